@@ -80,7 +80,8 @@ func main() {
 		"bytes.request.verified.identity", "bytes.request.verified.zstd", "bytes.request.verified.gzip",
 		"bytes.response.verified.identity", "bytes.response.verified.zstd", "bytes.response.verified.gzip",
 		"http.request-without-content-length", "http.externalized-result", "http.cap-refusal.unary",
-		"egress.write-cut-short.identity", "egress.write-cut-short.zstd", "egress.write-cut-short.gzip", "egress.write-cut-short.before-first-byte"}
+		"egress.write-cut-short.identity", "egress.write-cut-short.zstd", "egress.write-cut-short.gzip", "egress.write-cut-short.before-first-byte",
+		"request_id.odd-characters-verbatim.pipe", "request_id.odd-characters-verbatim.http", "claims.generated-key-redacted"}
 	for _, k := range traceKinds {
 		req = append(req, "trace."+k)
 	}
